@@ -515,7 +515,7 @@ fn bls_towers(cx: &mut Ctx) {
     cx.run_cases("bls12-381-Fp6", &c, |k| k());
 
     // ---- Fp12
-    let tc = mk::<Fp12, M12>(cx, "bls12-381-Fp12", &t, Box::new(fp12), if thorough { RhsMode::SparsePlusEvery(5) } else { RhsMode::Sparse });
+    let tc = mk::<Fp12, M12>(cx, "bls12-381-Fp12", &t, Box::new(fp12), if thorough { RhsMode::SparsePlusEvery(3) } else { RhsMode::SparsePlusEvery(25) });
     let mut c = generic_tower_ops(&tc, false);
     c.push(frobenius_case(&tc, 13, |x, k| {
         let mut t = *x;
@@ -817,7 +817,7 @@ fn bn_towers(cx: &mut Ctx) {
     cx.run_cases("bn254-Fq6", &c, |k| k());
 
     // ---- Fq12
-    let tc = mk::<Fq12, M12>(cx, "bn254-Fq12", &t, Box::new(fq12), if thorough { RhsMode::SparsePlusEvery(5) } else { RhsMode::Sparse });
+    let tc = mk::<Fq12, M12>(cx, "bn254-Fq12", &t, Box::new(fq12), if thorough { RhsMode::SparsePlusEvery(3) } else { RhsMode::SparsePlusEvery(25) });
     let mut c = generic_tower_ops(&tc, false);
     c.push(frobenius_case(&tc, 13, |x, k| {
         let mut t = *x;
